@@ -1,4 +1,5 @@
 import HexProofs.Manager.Trim
+import HexProofs.Manager2.TwinTreesHA
 import HexProofs.Writes.MembersC15
 import HexProofs.Manager2.TrimTf
 import HexProofs.Manager2.ShiftInst
@@ -677,5 +678,65 @@ example := @MembersC15Ex.applied_fill
 #print axioms C15b_member_look
 #print axioms C15b_member_tf
 #print axioms C15b_member_tf_fill
+
+/-- **C15, second clause, on a Heikin-Ashi manager – every shipped class** (`CoveredTreeX`), every lifespan, every
+construction prefix and append schedule of reading-free, not yet converted candles: under EXACTLY the hypothesis of
+`C15b_trees_look` (nothing popped at construction, `treeLook` candles from before each popping append retained –
+on the raw stamps), whenever the run with `{candlestick_type = HA, candles_lifespan}` and its untrimmed twin
+`{candlestick_type = HA}` both return, the trimmed indicator holds the twin's candles minus the popped ones: same
+Heikin-Ashi OHLC (a converted candle is tagged and never converted again, so it keeps the values computed when its
+predecessor was still there), saved raw values, readings, helper and `_data` series.
+(HexProofs/Manager2/TwinTreesHA.lean: `TwinMgr.ha`) -/
+theorem C15b_trees_ha (k : Kind F) (name : String) (round : Nat) (hc : CoveredTreeX name k)
+    (life : Int) (init : List (Candle F)) (chunks : List (List (Candle F)))
+    (hp : ∀ c ∈ init ++ chunks.flatten, Plain c) (htag : ∀ c ∈ init ++ chunks.flatten, c.tag = false)
+    (hinit : trimCandles (some life) init = .ok init)
+    (hret : RetainsFrom (treeLook k name round) life init init.length chunks) (a b : List (Candle F))
+    (ha : candlesOf (runIndicator (mkTop k name round) { ha := true, lifespan := some life } init chunks) = .ok a)
+    (hb : candlesOf (runIndicator (mkTop k name round) { ha := true } init chunks) = .ok b) : ∃ d, a = b.drop d :=
+  Hex.C15b_trees_ha k name round hc life init chunks (fun c hc' => ⟨hp c hc', htag c hc'⟩) hinit hret a b ha hb
+
+/-- **… on a collapsing timeframe with Heikin-Ashi conversion**: under EXACTLY the hypothesis of `C15b_trees_tf`
+(`RetainsBuckets`: `treeLook` CLOSED buckets of the unconverted resampled stream retained at every popping append).
+The bucket an append re-opens is converted again, with the last closed bucket as predecessor – retained because
+`treeLook ≥ 1`; no additional bucket is needed.  (`TwinMgr.tfHA`) -/
+theorem C15b_trees_tf_ha (k : Kind F) (name : String) (round : Nat) (hc : CoveredTreeX name k)
+    (tf : Int) (htf : 0 < tf) (life : Int) (init : List (Candle F)) (chunks : List (List (Candle F)))
+    (hraw : RawStream (init ++ chunks.flatten)) (hp : ∀ c ∈ init ++ chunks.flatten, Plain c)
+    (htag : ∀ c ∈ init ++ chunks.flatten, c.tag = false)
+    (hinit : trimCandles (some life) (resample tf init) = .ok (resample tf init))
+    (hret : RetainsBuckets (treeLook k name round) tf life init 0 chunks) (a b : List (Candle F))
+    (ha : candlesOf (runIndicator (mkTop k name round) { tf := some tf, ha := true, lifespan := some life }
+            init chunks) = .ok a)
+    (hb : candlesOf (runIndicator (mkTop k name round) { tf := some tf, ha := true } init chunks) = .ok b) :
+    ∃ d, a = b.drop d :=
+  Hex.C15b_trees_tf_ha k name round hc tf htf life init chunks
+    ⟨⟨hraw.stamped, hraw.plain, hraw.sorted, hp⟩, htag⟩ hinit hret a b ha hb
+
+/-- counting the still-forming bucket as retained history stays insufficient with conversion (ROC 2 over `Int`,
+replayed on the library: same HA values, `None` instead of `140.9091` on the re-opened bucket) -/
+theorem C15b_trees_tf_ha_naive_false :
+    ¬ (∀ (k : Kind Int) (name : String) (round : Nat), CoveredTreeX name k → ∀ (tf : Int), 0 < tf →
+        ∀ (life : Int) (init : List (Candle Int)) (chunks : List (List (Candle Int))),
+        RawTfHA (init ++ chunks.flatten) → trimCandles (some life) (resample tf init) = .ok (resample tf init) →
+        RetainsBucketsNaive (treeLook k name round) tf life init 0 chunks → ∀ a b,
+        candlesOf (runIndicator (mkTop k name round) (cfgTfHALife tf life) init chunks) = .ok a →
+        candlesOf (runIndicator (mkTop k name round) (cfgTfHA tf) init chunks) = .ok b → ∃ d, a = b.drop d) :=
+  Hex.C15b_trees_tf_ha_naive_false
+
+/-- non-vacuity: ATR 3 over Heikin-Ashi candles, schedules of `C15b_trees_look` / `C15b_trees_tf` -/
+example (a b : List (Candle Int)) (ha : runTha (.atr 3) "ATR_3" = .ok a) (hb : runUha (.atr 3) "ATR_3" = .ok b) :
+    ∃ d, a = b.drop d :=
+  C15b_trees_ha (.atr 3) "ATR_3" 4 atrDemoOK 240 ttInit [tt420, [], tt480] (by decide) (by decide) rfl
+    (by rw [atrDemo_look]; exact ttDemo_retains2) a b ha hb
+example (a b : List (Candle Int)) (ha : runTtfha (.atr 3) "ATR_3" = .ok a)
+    (hb : runUtfha (.atr 3) "ATR_3" = .ok b) : ∃ d, a = b.drop d :=
+  C15b_trees_tf_ha (.atr 3) "ATR_3" 4 atrDemoOK 120 (by decide) 360 tfInit tfChunks
+    ⟨tfDemo_raw.stamped, tfDemo_raw.cleanNone, tfDemo_raw.sorted⟩ tfDemo_raw.plain (by decide) tfDemo_init
+    (by rw [atrDemo_look]; exact tfDemo_retains) a b ha hb
+set_option synthInstance.maxSize 4000 in
+example : (runTtfha (.atr 3) "ATR_3").toOption.map (·.map (fun c => (viewHA c, view c)))
+    = (runUtfha (.atr 3) "ATR_3").toOption.map (fun b => (b.drop 3).map (fun c => (viewHA c, view c))) := by
+  decide +kernel
 
 end Hex.C15
